@@ -22,7 +22,7 @@ from .c04 import rand_admg, rand_query, table_order
 
 PROP = "C20"
 RULE = ("ADMGs (2-6 nodes; parallel directed+bidirected pairs, bidirected chains, colliders with conditioned descendants at "
-        "distance 1, 2, 3) and cyclic directed mixed graphs (2-5 nodes, self-loops) x ordered pairs x conditioning sets; whole "
+        "distance 1, 2, 3; single long connecting paths of 5-8 edges, open or closed at one place, with cutoff omitted or None) and cyclic directed mixed graphs (2-5 nodes, self-loops) x ordered pairs x conditioning sets; whole "
         "verdict tables on <=4 nodes (thorough: every mixed graph on <=3 nodes, cyclic ones included); a malformed stream "
         "(endpoint not in graph, endpoint conditioned on, a == b, condition not in graph). Non-trivial: in scope of the "
         "agreement clause with a non-empty conditioning set or a bidirected edge that matters, or a cyclic graph with adjacent "
@@ -86,6 +86,54 @@ def rand_collider_chain(rng):
     return g, 1, 2, [prev]
 
 
+def rand_long_path(rng):
+    """ONE long connecting path (5-8 edges, each ->, <- or <->, labels shuffled) and little else: the conditioning set is
+    chosen so that the path is open (every collider or one of its descendants conditioned, no other node) or closed at
+    exactly one place.  The only connection between the endpoints is longer than any small default path-length cut-off."""
+    k = rng.randint(5, 8)
+    lab = list(range(k + 1 + 2))
+    rng.shuffle(lab)
+    p, x1, x2 = lab[:k + 1], lab[k + 1], lab[k + 2]
+    kinds = [rng.choice(["fwd", "fwd", "back", "back", "bi"]) for _ in range(k)]
+    g = {"nodes": [], "di": [], "bi": []}
+    head_at = [set() for _ in range(k + 1)]         # which of its two path edges have an arrowhead at node i
+    for i, kind in enumerate(kinds):
+        u, w = p[i], p[i + 1]
+        if kind == "fwd":
+            g["di"].append([u, w])
+            head_at[i + 1].add(i)
+        elif kind == "back":
+            g["di"].append([w, u])
+            head_at[i].add(i)
+        else:
+            g["bi"].append([u, w] if rng.random() < 0.5 else [w, u])
+            head_at[i].add(i)
+            head_at[i + 1].add(i)
+    colliders = [i for i in range(1, k) if len(head_at[i]) == 2]
+    Cs = []
+    pend = [x1, x2]
+    for i in colliders:
+        if pend and rng.random() < 0.4:     # condition on a fresh child of the collider instead of the collider
+            c = pend.pop()
+            g["di"].append([p[i], c])
+            Cs.append(c)
+        else:
+            Cs.append(p[i])
+    r = rng.random()
+    inner = [i for i in range(1, k)]
+    if r < 0.25 and colliders:
+        Cs.remove(Cs[rng.randrange(len(Cs))])                 # closed: one collider left unconditioned
+    elif r < 0.4:
+        noncoll = [i for i in inner if i not in colliders]
+        if noncoll:
+            Cs.append(p[rng.choice(noncoll)])                 # closed: a non-collider conditioned
+    rng.shuffle(g["di"])
+    rng.shuffle(g["bi"])
+    rng.shuffle(Cs)
+    a, b = (p[0], p[-1]) if rng.random() < 0.5 else (p[-1], p[0])
+    return g, a, b, Cs
+
+
 COND_FORMS = F.CONTAINERS
 EMPTY_FORMS = F.CONTAINERS + ("none", "omitted", "none", "omitted")
 
@@ -124,6 +172,8 @@ def _cases(rng: random.Random, tier: str):
         r = rng.random()
         if r < 0.12:
             g, a, b, Cs = rand_collider_chain(rng)
+        elif r < 0.16:
+            g, a, b, Cs = rand_long_path(rng)
         elif r < 0.65:
             g = rand_admg(rng, 2, 6)
             a, b, Cs = rand_query(rng, g)
@@ -189,7 +239,7 @@ def _call(graph, a, b, Cs, form="list", kw=False, cutoff="omitted"):
         else:
             r = are_sigma_separated(graph, G.V(a), G.V(b), **kwargs)
         return ["ok", "true" if r else "false"]
-    except (KeyError, nx.NetworkXError, nx.NodeNotFound, IndexError, TypeError):
+    except Exception:  # noqa: BLE001 - whatever the class: an error outcome of the real code, never a harness error
         return ["err"]
 
 
